@@ -125,6 +125,29 @@ theorem test_util_shorthands (x y z : Nat) :
     (try by_cases h4 : y ≤ 16383) <;> (try by_cases h5 : x ≤ 16383) <;> (try by_cases h6 : x ≤ 127) <;>
     simp [*, bind, Except.bind]
 
+/-- the helpers for 14-bit CC and (N)RPN messages: panic exactly for out-of-range arguments (the 14-bit CC helper also,
+    as documented for `new`, for an MSB controller number above 31), otherwise the described message -/
+theorem test_util_composite (x y z : Nat) (reg : Bool) :
+    tuControlChange14Bit x y z =
+      (if x ≤ 15 ∧ y ≤ 127 ∧ z ≤ 16383 then (if y < 32 then .ok ⟨x, y, z⟩ else .error .cc14MsbAssert)
+       else .error .testUtilExpect) ∧
+    tuPn reg false x y z =
+      (if x ≤ 15 ∧ y ≤ 16383 ∧ z ≤ 127 then .ok ⟨x, y, z, reg, false, .dataEntry⟩ else .error .testUtilExpect) ∧
+    tuPn reg true x y z =
+      (if x ≤ 15 ∧ y ≤ 16383 ∧ z ≤ 16383 then .ok ⟨x, y, z, reg, true, .dataEntry⟩ else .error .testUtilExpect) := by
+  simp only [tuControlChange14Bit, tuPn, tuChannel, tuControllerNumber, tuU14, tuU7, tuConv, CC14Msg.new, cnLsbOf,
+    PNMsg.sevenBit, PNMsg.fourteenBit]
+  refine ⟨?_, ?_, ?_⟩
+  · by_cases h1 : x ≤ 15 <;> by_cases h2 : y ≤ 127 <;> by_cases h3 : z ≤ 16383 <;> simp [h1, h2, h3, bind, Except.bind]
+    by_cases h4 : y < 32
+    · have : ¬ 32 ≤ y := by omega
+      have h5 : ¬ 224 ≤ y := by omega
+      simp [h4, this, h5]
+    · have : 32 ≤ y := by omega
+      simp [h4, this]
+  · by_cases h1 : x ≤ 15 <;> by_cases h2 : y ≤ 16383 <;> by_cases h3 : z ≤ 127 <;> simp [h1, h2, h3, bind, Except.bind]
+  · by_cases h1 : x ≤ 15 <;> by_cases h2 : y ≤ 16383 <;> by_cases h3 : z ≤ 16383 <;> simp [h1, h2, h3, bind, Except.bind]
+
 /-! non-vacuity -/
 example : Ctor.pitchBendChange.ArgsValid 15 16383 0 ∧ specNamed .pitchBendChange 15 16383 0 = ⟨0xEF, 127, 127⟩ := by decide
 example : Ctor.timeCodeQuarterFrame.ArgsValid 7 1 3 ∧ specNamed .timeCodeQuarterFrame 7 1 3 = ⟨0xF1, 0x77, 0⟩ := by decide
